@@ -88,6 +88,8 @@ def afterTraverse (g : Graph) (s : State) (w next prev : Nat) (dir : Dir) : Step
     | .down =>
       if run then (popPath s w, evs, .cont) else
       if isCleanupReady g s next w then
+        -- postpone the cleanup of a composite node while unexpanded tests remain (it might get new children)
+        if !(g.node next).flat && (s.wd w).unexplored then (s.setWd w (fun d => { d with path := [g.root] }), evs, .cont) else
         let s := (g.node next).setup.foldl (fun s (p, _) => dropChild g s p next w) s
         match reverseNode g s next w with
         | .error e => (s, evs, .raise e)
@@ -167,13 +169,21 @@ def iter (g : Graph) (s : State) (w : Nat) : Step :=
       else traverseNode g s w next prev .down
     else (s, [], .raise "AssertionError")
 
+/-- one iteration including the lazy expansion step (on pre-parsed graphs `prepare` only records that no flat node is
+unexplored and `vis g s = g`) -/
+def iterL (g : Graph) (s : State) (w : Nat) : Step :=
+  if isCleanupReady (vis g s) s g.root w || (s.wd w).path.length ≤ 1 then iter (vis g s) s w
+  else
+    let s1 := prepare g s w
+    iter (vis g s1) s1 w
+
 /-- run loop iterations until the next suspension (fuel bounds the number of iterations in the driver
 only; the theorems are about single steps and arbitrary sequences of steps) -/
 def runLoop (g : Graph) (w : Nat) : Nat → State → List Event → State × List Event
   | 0, s, evs => (s, evs ++ [Event.raise (g.worker w).id "fuel"])
   | fuel + 1, s, evs =>
     let s := s.setWd w (fun d => { d with pc := .loop })
-    match iter g s w with
+    match iterL g s w with
     | (s, e, .cont) => runLoop g w fuel s (evs ++ e)
     | (s, e, .suspend) => (s, evs ++ e)
     | (s, e, .exit) => (s, evs ++ e)
@@ -234,7 +244,7 @@ where
           s.setNd n (fun d => { d with results := d.results ++ (s.wd w).preResults.drop d.results.length })
         else s
       let s := finishTraverse s n w
-      match afterTraverse g s w n prev dir with
+      match afterTraverse (vis g s) s w n prev dir with
       | (s, e2, .raise what) =>
         (s.setWd w (fun d => { d with pc := .failed }), evs ++ e2 ++ [Event.raise (g.worker w).id what])
       | (s, e2, _) => runLoop g w fuel s (evs ++ e2)
@@ -247,8 +257,9 @@ def resume (g : Graph) (s : State) (w : Nat) (out : Outcome) (fuel : Nat := 1000
   | .done => (s, [])
   | .failed => (s, [])
 
-def initState (g : Graph) (ncls : Nat) (store : List (String × List (String × String))) : State :=
-  { nodes := g.nodes.map (fun _ => {}),
+def initState (g : Graph) (ncls : Nat) (store : List (String × List (String × String))) (hidden : List Nat := []) : State :=
+  { hidden := hidden,
+    nodes := g.nodes.map (fun _ => {}),
     regs := (List.range ncls).map (fun _ => {}),
     workers := g.workers.map (fun _ => { path := [g.root] }),
     store := store }
